@@ -39,6 +39,11 @@ pub uninterp spec fn is_ws(c: char) -> bool; // Unicode White_Space
 pub broadcast axiom fn is_ws_ascii(c: char)
     requires (c as u32) < 128
     ensures #[trigger] is_ws(c) == (c == ' ' || c == '\t' || c == '\n' || c == '\r' || c as u32 == 11 || c as u32 == 12);
+
+/// some character of the text is Unicode white space (str::chars().any(char::is_whitespace))
+pub open spec fn has_ws(s: Seq<char>) -> bool { exists|i: int| 0 <= i < s.len() && is_ws(#[trigger] s[i]) }
+#[verifier::external_body]
+pub fn v_any_whitespace(s: &str) -> (r: bool) ensures r == has_ws(s@) { unimplemented!() }
 pub open spec fn trim_start_spec(s: Seq<char>) -> Seq<char> decreases s.len() {
     if s.len() > 0 && is_ws(s[0]) { trim_start_spec(s.subrange(1, s.len() as int)) } else { s }
 }
